@@ -171,6 +171,15 @@ def run_structure(rng, obs):
     sup = [p for p, wi in zip(P, W) if wi > 0]
     ck([tuple(p) for p in c.support()] == sup and list(c.support_index()) == [i for i, wi in enumerate(W) if wi > 0],
        'support lists exactly the product points of positive weight', observed=len(c.support()), expected=len(sup))
+    # with a tolerance: a point counts as supported when ITS (product) weight exceeds tol - whatever the factor weights are (unnormalised factors may weigh more than 1)
+    pos_w = sorted(set(wi for wi in W if wi > 0))
+    if pos_w:
+        tolv = rng.choice([pos_w[0], pos_w[len(pos_w) // 2], 0.5 * pos_w[0], 0.15, 1.0])
+        margin = [abs(wi - tolv) for wi in W]
+        if all(mg_ == 0 or mg_ > 1e-12 * max(1.0, tolv) for mg_ in margin):
+            sup_t = [p for p, wi in zip(P, W) if wi > tolv]
+            ck([tuple(p) for p in c.support(tolv)] == sup_t and list(c.support_index(tolv)) == [i for i, wi in enumerate(W) if wi > tolv],
+               'support lists exactly the product points of positive weight', observed=len(c.support(tolv)), expected=len(sup_t), tol=tolv, weights=W[:8])
     # factor measure accessors
     m0 = c[0]
     ck(list(m0.weights) == wts[0] and list(m0.positions) == pos[0] and m0.npts == pts[0] and R.close(m0.mass, math.fsum(wts[0])), 'factor measure accessors')
